@@ -136,7 +136,6 @@ func VerifC01Boundary(h *verifrt.H) {
 	cerr := w.Close()
 	accepted := werr == nil && cerr == nil
 	idx, _, lerr := vfLoad(h, path)
-	h.Known("C01-key-length-not-validated", "accepted", kl == 0 || kl > 65535)
 	if accepted {
 		h.Assert(lerr == nil, "accepted-write-loads")
 		v, ok := idx[key]
@@ -144,7 +143,6 @@ func VerifC01Boundary(h *verifrt.H) {
 	} else {
 		h.Assert(lerr == nil && len(idx) == 0, "rejected-write-leaves-file-loadable-and-empty")
 	}
-	h.ClearKnown()
 	h.Cover("end")
 }
 
@@ -258,13 +256,13 @@ func VerifC02Crash(h *verifrt.H) {
 			torn = false
 		}
 	}
-	// known finding only for images that end inside a block (torn tail); a failure on an
-	// image that ends at a block boundary is a new violation
-	h.Known("C02-torn-tail-makes-file-unreadable", "crash-load", torn)
+	_ = torn
 	idx, _, lerr := vfLoad(h, path)
-	h.Assert(lerr == nil, "crash-load-ok")
+	// Only a file torn while it was being created (shorter than header+name: it never held a
+	// block, nothing was ever synced) may be unreadable; the chronicler then starts empty.
+	h.Assert(lerr == nil || imgLen < 64+1 && syncedAt == 0, "crash-load-ok")
 	if lerr != nil {
-		return
+		idx = map[string][]byte{}
 	}
 	match := false
 	for i := syncedAt; i < len(boundaries); i++ {
@@ -273,9 +271,7 @@ func VerifC02Crash(h *verifrt.H) {
 		}
 	}
 	h.Assert(match, "crash-load-state-is-a-flush-boundary-not-older-than-last-sync")
-	h.ClearKnown()
 	// writes after recovery are themselves recoverable
-	h.Known("C02-append-after-torn-tail-lost", "after-recovery", torn)
 	w2, err := NewFileWriter(path, bs)
 	h.Assert(err == nil, "after-recovery-reopen")
 	if err != nil {
@@ -293,7 +289,6 @@ func VerifC02Crash(h *verifrt.H) {
 			h.Assert(ok && vfBytesEq(v, v2), "after-recovery-old-entries-present")
 		}
 	}
-	h.ClearKnown()
 	h.Cover("end")
 }
 
@@ -325,7 +320,6 @@ func VerifC25DiskFull(h *verifrt.H) {
 		err2 = w.Sync()
 	}
 	w.Close()
-	h.Known("C25-short-write-corrupts-file", "diskfull", err1 != nil)
 	idx, _, lerr := vfLoad(h, path)
 	h.Assert(lerr == nil, "diskfull-load-ok")
 	if lerr != nil {
